@@ -46,6 +46,8 @@ THEOREMS = [
     "Pyribs.C18.mean_convex",
     "Pyribs.C18.mean_in_halfspace",
     "Pyribs.C18.cma_mean_update",
+    "Pyribs.C18.sep_mean_update",
+    "Pyribs.C18.lm_mean_update",
     # T18.3
     "Pyribs.C18.cma_zero_parents",
     "Pyribs.C18.sep_zero_parents",
@@ -69,6 +71,8 @@ THEOREMS = [
     "Pyribs.C18.sigma_pos_real",
     "Pyribs.C18.sigma_pos",
     "Pyribs.C18.sigma_update_shape",
+    "Pyribs.C18.sep_tell_valid",
+    "Pyribs.C18.lm_tell_sigma_pos",
     # T18.7
     "Pyribs.C18.reset_initial",
     "Pyribs.C18.reset_forgets",
@@ -1403,35 +1407,166 @@ def run_case(case):
     raise ValueError(kind)
 
 
+def strata(quick):
+    """(name, generator, non-triviality rule, quick cases, thorough cases, weight in the time split)"""
+    return [
+        ("openai-nomirror", gen_es("openai", False, quick), nontrivial_es, 40, 1000, 1.0),
+        ("openai-mirror", gen_es("openai", True, quick), nontrivial_es, 40, 1000, 1.0),
+        ("gradopt", gen_grad(quick), nontrivial_grad, 120, 6000, 0.7),
+        ("lmma", gen_es("lm", False, quick), nontrivial_es, 40, 1000, 1.0),
+        ("sepcma", gen_es("sep", False, quick), nontrivial_es, 40, 1000, 1.2),
+        ("cma", gen_es("cma", False, quick), nontrivial_es, 40, 1000, 1.6),
+        ("pycma", gen_pycma(quick), nontrivial_es, 12, 400, 0.5),
+    ]
+
+
+def warm_up():
+    """compile (or load from the cache) the numba helpers before any time budget is split"""
+    enable_numba_cache()
+    warnings.simplefilter("ignore")
+    for kind in ("lm", "sep", "cma"):
+        for dtype in (F64, F32):
+            case = {"kind": kind, "dim": 3, "batch": 3, "dtype": dtype, "seed": 1, "sigma0": 0.5,
+                    "x0": [0.0, 0.0, 0.0], "lb": [-2.0] * 3, "ub": [2.0] * 3}
+            try:
+                es = make_es(case)
+                es.reset(np.zeros(3, dtype=NPDT[dtype]))
+                for _ in range(2):
+                    es.ask()
+                    es.tell(np.array([2, 0, 1]), np.zeros(3), 2)
+            except Exception:  # pylint: disable=broad-except
+                pass  # a broken optimizer is reported by the cases, not here
+
+
+MIN_CASES = 8  # per stratum, whatever the clock says (a cold numba cache must not starve a stratum)
+
+
+def shifted(gen):
+    return lambda rng: gen(__import__("random").Random(rng.getrandbits(64) ^ 0x5BD1E995))
+
+
 def run(ctx):
     global CTX  # pylint: disable=global-statement
     CTX = ctx
     quick = ctx.quick
-    total = 45.0 if quick else 600.0
-    deadline = ctx.t0 + total - (4.0 if quick else 40.0)
-    strata = [
-        ("openai-nomirror", gen_es("openai", False, quick), nontrivial_es, ctx.n(40, 1000), 1.0),
-        ("openai-mirror", gen_es("openai", True, quick), nontrivial_es, ctx.n(40, 1000), 1.0),
-        ("gradopt", gen_grad(quick), nontrivial_grad, ctx.n(120, 6000), 0.7),
-        ("lmma", gen_es("lm", False, quick), nontrivial_es, ctx.n(40, 1000), 1.0),
-        ("sepcma", gen_es("sep", False, quick), nontrivial_es, ctx.n(40, 1000), 1.2),
-        ("cma", gen_es("cma", False, quick), nontrivial_es, ctx.n(40, 1000), 1.6),
-        ("pycma", gen_pycma(quick), nontrivial_es, ctx.n(12, 400), 0.5),
-    ]
-    for i, (name, gen, nt, n_cases, weight) in enumerate(strata):
-        remaining = deadline - time.time()
-        wsum = sum(s[4] for s in strata[i:])
-        budget = max(1.0, remaining * weight / wsum)
-        ctx.explore(name, gen, run_case, n_cases, nontrivial=nt, time_budget=budget)
-    if not quick:
-        ctx.extra["tests"] = convergence_tests()
+    warm_up()
+    ctx.extra["tests"] = [{"test": "convergence on a convex quadratic", "skipped": "thorough tier only"}]
+    if quick:
+        deadline = ctx.t0 + 45.0 - 3.0
+        todo = strata(True)
+        for i, (name, gen, nt, nq, _, weight) in enumerate(todo):
+            n_cases = ctx.n(nq, nq)
+            nmin = min(MIN_CASES, n_cases)
+            ctx.explore(name, gen, run_case, nmin, nontrivial=nt)
+            remaining = deadline - time.time()
+            wsum = sum(s[5] for s in todo[i:])
+            budget = max(0.5, remaining * weight / wsum)
+            if n_cases > nmin:
+                ctx.explore(name + "+", shifted(gen), run_case, n_cases - nmin, nontrivial=nt, time_budget=budget)
     else:
-        ctx.extra["tests"] = [{"test": "convergence on a convex quadratic", "skipped": "thorough tier only"}]
+        run_thorough(ctx)
+        ctx.extra["tests"] = convergence_tests()
     ctx.extra["tolerance_statistics"] = {
         "meaning": "largest observed |impl - model or reference| / (tol * scale) per observable (must stay <= 1)",
         "tol": {"float64": "2^-40", "float32": "2^-18"}, "max_ratio": dict(sorted(STATS.items()))}
     if _DRV[0] is not None:
         _DRV[0].close()
+        _DRV[0] = None
+
+
+# ---- thorough tier: worker processes over disjoint index ranges, each with its own driver
+
+
+def _worker(args):
+    prop_id, tier, seed, name, start, n, deadline = args
+    import core
+    global CTX  # pylint: disable=global-statement
+    wctx = core.Ctx(prop_id, tier, seed)
+    CTX = wctx
+    STATS.clear()
+    table = {s[0]: s for s in strata(False)}
+    _, gen, nt, _, _, _ = table[name]
+    out = []
+    for idx in range(start, start + n):
+        if time.time() > deadline:
+            break
+        case = gen(wctx.rng(name, idx))
+        case["stratum"] = name
+        case["case_index"] = idx
+        try:
+            f = run_case(case)
+        except core.Infra as e:
+            return {"infra": str(e)}
+        except Exception as e:  # pylint: disable=broad-except
+            import traceback
+            return {"infra": f"worker crashed on {name}#{idx}: {type(e).__name__}: {e}\n{traceback.format_exc()[-1500:]}"}
+        out.append((idx, None if f is None else f.to_json(), bool(nt(case)),
+                    __import__("hashlib").sha1(repr(case.get("ops", case)).encode()).hexdigest()))
+    if _DRV[0] is not None:
+        _DRV[0].close()
+        _DRV[0] = None
+    return {"name": name, "cases": out, "dist": dict(wctx.dist), "stats": dict(STATS)}
+
+
+def run_thorough(ctx):
+    import multiprocessing as mp
+    from concurrent.futures import ProcessPoolExecutor
+    import core
+    total = 470.0
+    deadline = ctx.t0 + total - 75.0  # convergence tests, shrinking and evidence come after
+    todo = strata(False)
+    # corpus first (sequential, in this process)
+    for name, gen, nt, _, _, _ in todo:
+        ctx.explore(name, gen, run_case, 0, nontrivial=nt)
+    chunk = 10
+    tasks = []
+    maxchunks = max((ctx.n(s[3], s[4]) + chunk - 1) // chunk for s in todo)
+    for c in range(maxchunks):
+        for name, _, _, nq, nth, _ in todo:
+            n_cases = ctx.n(nq, nth)
+            if c * chunk < n_cases:
+                tasks.append((ctx.prop_id, ctx.tier, ctx.seed, name, c * chunk, min(chunk, n_cases - c * chunk), deadline))
+    workers = int(os.environ.get("VERIF_WORKERS", "0")) or max(2, min(12, (os.cpu_count() or 4) - 4))
+    failing = []
+    with ProcessPoolExecutor(max_workers=workers, mp_context=mp.get_context("spawn")) as ex:
+        for res in ex.map(_worker, tasks):
+            if "infra" in res:
+                raise core.Infra(res["infra"])
+            name = res["name"]
+            for idx, fj, nt_flag, digest in res["cases"]:
+                ctx.evaluations += 1
+                ctx.validated += 1
+                ctx.count(name)
+                if nt_flag:
+                    ctx.nontrivial.add(digest)
+                if fj is not None:
+                    failing.append((name, idx, fj))
+            for k, v in res["dist"].items():
+                ctx.count(k, v)
+            for k, v in res["stats"].items():
+                stat(k, v)
+    ctx.extra["workers"] = workers
+    # failing cases are re-run, shrunk and classified in this process (at most two per stratum)
+    table = {s[0]: s for s in todo}
+    seen = {}
+    for name, idx, fj in sorted(failing, key=lambda t: (t[0], t[1])):
+        if seen.get(name, 0) >= 2:
+            continue
+        seen[name] = seen.get(name, 0) + 1
+        gen = table[name][1]
+        case = gen(ctx.rng(name, idx))
+        case["stratum"] = name
+        case["case_index"] = idx
+        f = run_case(case)
+        if f is None:
+            f = Failure(fj["kind"], fj["what"] + " (did not reproduce in the main process)", key=fj.get("key"))
+            ctx.failures.append((f, case))
+            continue
+        small = core.shrink(case, run_case, f, "ops")
+        ctx.failures.append((run_case(small) or f, small))
+    if ctx.samples == [] and tasks:
+        name, gen = todo[0][0], todo[0][1]
+        ctx.sample(gen(ctx.rng(name, 0)))
 
 
 def replay(ctx, case):
